@@ -434,10 +434,17 @@ def install(R):
 
     def last_result_truthy(eng, fr, name):
         nm = name.t.as_string()
-        evs = [e for e in fr.st.events if e.kind == "call" and e.name.split(":")[-1] == nm]
-        if not evs or (evs[-1].extra or {}).get("result") is None:
+        last, hidden_after = None, False
+        for e in fr.st.events:
+            if e.kind == "call" and e.name.split(":")[-1] == nm:
+                last, hidden_after = e, False
+            elif e.kind == "unknown-calls" and ((e.extra or {}).get("names") is None or nm.split(".")[-1] in (e.extra or {}).get("names")):
+                hidden_after = True
+        if hidden_after:
+            return mk_bool(z3.Bool(fresh_name("maybe_truthy")))     # a later, unseen call may have returned either
+        if last is None or (last.extra or {}).get("result") is None:
             return mk_bool(False)
-        return mk_bool(eng.truth(evs[-1].extra["result"], fr))
+        return mk_bool(eng.truth(last.extra["result"], fr))
     S["last_result_truthy"] = last_result_truthy
 
     # ------------------------------------------------------------------ a ghost witness map V -> Int (loop invariants)
